@@ -331,9 +331,18 @@ def run(program):
         probes["crash_points_thinned_away"] = thinned
         rot = en.get("kind_rot", 0)
         distinct = set()
+        import time as _time
+
+        deadline = float(os.environ.get("VERIF_DEADLINE", "0") or 0)
+        truncated = False
         for n_i, k in enumerate(ks):
             if k > len(trace):
                 continue
+            if deadline and _time.time() > deadline + 20 and en.get("ks") is None:
+                truncated = True  # wall-clock budget of the batch is over: stop enumerating, say so
+                probes["enumeration_truncated_by_batch_deadline"] = 1
+                probes["crash_points_injected"] = n_i
+                break
             kind = en.get("kind") or EXC_KINDS[(rot + n_i) % len(EXC_KINDS)]
             j, rng, pool = T.fresh()
             out, err, fired = T.inj.run_with_fault(lambda: T.call(j), k, lambda site: make_exc(kind, site))
@@ -383,6 +392,10 @@ def run(program):
             extra = tape.sub(program["seed"], "extracap").sample(extra, extra_cap)
         for f in extra:
             f = dict(f)
+            if deadline and _time.time() > deadline + 20 and program.get("extra_faults") is None:
+                truncated = True
+                probes["enumeration_truncated_by_batch_deadline"] = 1
+                break
             if f["kind"] == "rng":
                 j, rng, pool = T.fresh()
                 dep.record.n = 0
@@ -422,7 +435,7 @@ def run(program):
         res["n_ops"] = 1
         res["steps"] = log.step
         res["event_counts"] = dict(log.counts)
-        res["digest"] = log.digest()
+        res["digest"] = None if truncated else log.digest()  # a truncated enumeration is time-dependent: no digest
         res["schedule"] = dict(dep.decider.taken)
         res["sample"] = {"op": op, "pool": program["config"]["pool"], "library_n": program["config"]["libraries"][0]["n"], "call_events": len(trace), "injected": len(ks),
                          "first_sites": ["%s:%s:%s->%s" % t for t in trace[:12]], "extra_faults": len(extra)}
